@@ -340,11 +340,14 @@ def _run_case(item):
 
 def run(ctx: Ctx):
     from ..translate import gen
-    gen.regenerate(ctx, ["Constants", "StepBody"])
+    gen.regenerate(ctx, ["Constants", "StepBody", "HopAlpha"])
     leanproj.check_theorems(ctx, MODULE, THEOREMS)
     from .registry import THEOREMS_STEPTIE
     # translator tie: thermostat, velocity Verlet, thermostat - in that order, in every engine that has a thermostat
     leanproj.check_theorems(ctx, "PyseqmVerif.Properties.StepTie", [t for t in THEOREMS_STEPTIE if "langevin" in t or "damped" in t or "basic" in t])
+    from .registry import THEOREMS_SCALARTIE
+    # translator tie: the coefficients computed by Molecular_Dynamics_Langevin.initialize are the model's c1, c2
+    leanproj.check_theorems(ctx, "PyseqmVerif.Properties.ScalarTie", [t for t in THEOREMS_SCALARTIE if "langevin" in t])
     drv = leanproj.Driver()
     try:
         try:
